@@ -68,6 +68,7 @@ type wStruct struct {
 	hasPos  bool
 	hasEnd  bool
 	foreign bool // alias of a go/ast node type
+	methods map[string]*ast.FuncDecl // Pos, End (and other pointer-receiver methods) by name
 }
 
 type wStep struct {
@@ -198,6 +199,10 @@ func loadAstPkg(repo string) (*astPkg, error) {
 				continue
 			}
 			if s := p.structs[id.Name]; s != nil {
+				if s.methods == nil {
+					s.methods = map[string]*ast.FuncDecl{}
+				}
+				s.methods[fd.Name.Name] = fd
 				switch fd.Name.Name {
 				case "Pos":
 					s.hasPos = true
@@ -219,6 +224,7 @@ func loadAstPkg(repo string) (*astPkg, error) {
 		}
 		gs := map[string]*ast.StructType{}
 		gm := map[string]int{}
+		gmeth := map[string]map[string]*ast.FuncDecl{}
 		for _, d := range gf.Decls {
 			switch d := d.(type) {
 			case *ast.GenDecl:
@@ -234,6 +240,10 @@ func loadAstPkg(repo string) (*astPkg, error) {
 					if st, ok := d.Recv.List[0].Type.(*ast.StarExpr); ok {
 						if id, ok := st.X.(*ast.Ident); ok {
 							gm[id.Name]++
+							if gmeth[id.Name] == nil {
+								gmeth[id.Name] = map[string]*ast.FuncDecl{}
+							}
+							gmeth[id.Name][d.Name.Name] = d
 						}
 					}
 				}
@@ -272,7 +282,7 @@ func loadAstPkg(repo string) (*astPkg, error) {
 					return nil, broken("alias %s = go/ast.%s: field type %s not understood", local, g, wExprStr(p.fset, f.Type))
 				}
 			}
-			p.structs[local] = &wStruct{name: local, fields: st.Fields.List, hasPos: gm[g] >= 2, hasEnd: gm[g] >= 2, foreign: true}
+			p.structs[local] = &wStruct{name: local, fields: st.Fields.List, hasPos: gm[g] >= 2, hasEnd: gm[g] >= 2, foreign: true, methods: gmeth[g]}
 		}
 	}
 	return p, nil
